@@ -354,12 +354,24 @@ var stratNames = map[varmq.Strategy]string{varmq.RoundRobin: "RoundRobin", varmq
 
 // runStrategy: kinds[i] is the kind of the i-th bound queue, pop[i] its initial population. late = index of a
 // queue that receives one more job while the first job is executing (-1: none).
+// stratExtra receives what the generic oracle suite reports on the last runStrategy execution (each clause under its own
+// property); the enumerations add it to their reports.
+var stratExtra []vrt.Violation
+
 func runStrategy(strat varmq.Strategy, kinds []QK, pop []int, late int) (clause, detail string) {
 	h := NewH()
-	h.NoMon = true
 	h.Shape = Gated
+	h.CrashProp, h.HangProp = "C15", "C15"
+	stratExtra = nil
+	var x *vrt.Exec
+	defer func() {
+		if x != nil && x.EngineErr == "" {
+			h.Judge(x)
+			stratExtra = append(stratExtra, h.V...)
+		}
+	}()
 	var order []int // queue index of each started job
-	x := vrt.Run(nil, nil, nil, func() {
+	x = vrt.Run(nil, nil, func(sc *vrt.Sched) { sc.Monitor = h.monitor }, func() {
 		w := h.NewWorker(Plain, 1, varmq.WithStrategy(strat))
 		var qs []*Q
 		for _, k := range kinds {
@@ -466,6 +478,7 @@ func runStrategy(strat varmq.Strategy, kinds []QK, pop []int, late int) (clause,
 			clause, detail = "C15.starved", "not every pending job was dispatched: a queue with pending jobs was starved"
 			return
 		}
+		h.End()
 	})
 	if clause != "" {
 		return
@@ -514,6 +527,12 @@ func enumStrategy(r *SeqReport, kmax, pmax int, kindSet []QK) {
 								r.Traces++
 								r.Transitions += int64(tot + 1)
 								cl, det := runStrategy(strat, kinds, pop, late)
+								for _, v := range stratExtra {
+									if k := v.Clause + "|" + v.Detail; !seen[k] && len(r.V) < 40 {
+										seen[k] = true
+										r.V = append(r.V, SeqViolation{v.Prop, v.Clause, v.Detail, fmt.Sprintf("%s kinds=%s pop=%v late=%d", stratNames[strat], kindNames(kinds), pop, late)})
+									}
+								}
 								cs := fmt.Sprintf("%s kinds=%s pop=%v late=%d", stratNames[strat], kindNames(kinds), pop, late)
 								states[fmt.Sprintf("%d|%v|%d", strat, pop, late)] = struct{}{}
 								if cl == "engine" {
@@ -593,7 +612,7 @@ func init() {
 	}
 	allQ := []QK{Fifo, Prio, Pers, PersPrio, Dist}
 	Register(&Scenario{
-		Name: "seq-strategy/k2", Props: []string{"C15", "C17"}, Seq: true, Only: "quick",
+		Name: "seq-strategy/k2", Props: []string{"C15", "C17", "C01", "C03", "C09", "C11", "C13"}, Seq: true, Only: "quick",
 		SeqRun: func(r *SeqReport) {
 			r.Exhaustive = true
 			enumStrategy(r, 2, 2, allQ)
@@ -601,7 +620,7 @@ func init() {
 		},
 	})
 	Register(&Scenario{
-		Name: "seq-strategy/k3", Props: []string{"C15"}, Seq: true, Only: "quick",
+		Name: "seq-strategy/k3", Props: []string{"C15", "C17", "C01", "C03"}, Seq: true, Only: "quick",
 		SeqRun: func(r *SeqReport) {
 			r.Exhaustive = true
 			enumStrategy(r, 3, 2, []QK{Fifo, Prio})
@@ -611,7 +630,7 @@ func init() {
 	for _, first := range allQ {
 		first := first
 		Register(&Scenario{
-			Name: "seq-strategy/k3full/" + first.String(), Props: []string{"C15"}, Seq: true, Only: "thorough",
+			Name: "seq-strategy/k3full/" + first.String(), Props: []string{"C15", "C17", "C01", "C03", "C09", "C11", "C13"}, Seq: true, Only: "thorough",
 			SeqRun: func(r *SeqReport) {
 				r.Exhaustive = true
 				// three queues, first kind fixed per shard, populations 0..3
@@ -628,6 +647,12 @@ func init() {
 								r.Traces++
 								r.Transitions += int64(pop[0] + pop[1] + pop[2])
 								cl, det := runStrategy(strat, kinds, pop, -1)
+								for _, v := range stratExtra {
+									if k := v.Clause + "|" + v.Detail; !seen[k] && len(r.V) < 40 {
+										seen[k] = true
+										r.V = append(r.V, SeqViolation{v.Prop, v.Clause, v.Detail, fmt.Sprintf("%s kinds=%s pop=%v", stratNames[strat], kindNames(kinds), pop)})
+									}
+								}
 								if cl != "" && cl != "engine" && !seen[cl+det] && len(r.V) < 40 {
 									seen[cl+det] = true
 									r.V = append(r.V, SeqViolation{"C15", cl, det, fmt.Sprintf("%s kinds=%s pop=%v", stratNames[strat], kindNames(kinds), pop)})
